@@ -26,8 +26,8 @@ using vh::Rng;
 
 namespace {
 
-const char *CLASSES[] = {"stateless", "multigroup", "feedforward", "autonomous", "movable", "negreg", "memory", "enablelogic"};
-constexpr size_t NCLASSES = 8;
+const char *CLASSES[] = {"stateless", "multigroup", "feedforward", "autonomous", "movable", "negreg", "memory", "enablelogic", "resetedge"};
+constexpr size_t NCLASSES = 9;
 
 struct InPin { size_t w = 0; bool stall = false; };
 struct Member { int pin; std::string rst; };
@@ -37,6 +37,7 @@ struct Step {
 	// analysis
 	unsigned dep = 0;      // groups this value depends on
 	bool autonomous = false; // raw counter output
+	bool taint = false;    // depends on an autonomous counter
 	size_t ffd = 0, ureg = 0; // max feed-forward / user registers on a path
 	size_t h = 0;          // max number of hints on a path from here to an output
 	bool live = false;
@@ -47,6 +48,7 @@ struct Recipe {
 	std::vector<InPin> ins; std::vector<int> enPins; std::vector<Group> groups; std::vector<Step> steps; std::vector<int> outs;
 	size_t ncyc = 28;
 	bool xdata = false;
+	bool edge0Low = false; // stimulus keeps every stall input low in cycle 0 (no register samples on the reset edge)
 	// memory class
 	// memory class: 1-2 memories (read latency 1), each read port followed by logic and 1-2 registers marked allowRetimingBackward
 	// with reset value x enable in all combinations; the memory detector retimes them backward into the read port
@@ -66,6 +68,7 @@ void analyseRecipe(Recipe &r);
 struct Gen {
 	Rng &rng; Recipe r; size_t maxSteps;
 	std::vector<int> bits, vecs, cnts;
+	std::vector<int> tbits, tvecs; // class autonomous: values that depend on a counter are kept apart (see taintedStep)
 	Gen(Rng &rng, size_t maxSteps) : rng(rng), maxSteps(maxSteps) {}
 
 	size_t w(int i) const { return r.steps[i].w; }
@@ -76,9 +79,12 @@ struct Gen {
 		if (s.kind == "ffreg") { s.ffd++; s.ureg++; }
 		if (s.kind == "mreg" || s.kind == "hreg") s.ureg++;
 		if (s.kind == "cnt") s.autonomous = true;
+		for (int x : {s.a, s.b, s.c}) if (auto *p = arg(x)) if (p->autonomous || p->taint) s.taint = true;
 		evalReset(s);
 		r.steps.push_back(s); int i = (int) r.steps.size() - 1;
-		if (s.kind == "cnt") cnts.push_back(i); else if (s.kind != "pin") (s.w == 0 ? bits : vecs).push_back(i);
+		if (s.kind == "cnt") cnts.push_back(i);
+		else if (s.taint && r.cls == "autonomous") (s.w == 0 ? tbits : tvecs).push_back(i);
+		else if (s.kind != "pin") (s.w == 0 ? bits : vecs).push_back(i);
 		return i;
 	}
 	void evalReset(Step &s) {
@@ -150,7 +156,35 @@ struct Gen {
 		else if (!bits.empty()) { if (rng.chance(1, 4)) add(Step{.kind = "bnot", .w = 0, .a = pickBit()}); else { static const char *ops[] = {"band", "bor", "bxor"}; add(Step{.kind = ops[rng.below(3)], .w = 0, .a = pickBit(), .b = pickBit()}); } }
 	}
 
+	// Class autonomous: the lag twin delays the counter by the number of hints downstream of the step that combines it with grouped data
+	// (Step.h). That derivation needs every structural path behind the combining step to be a real dependence. The optimiser removes
+	// dependences that are only structural (mux with equal data inputs, nested muxes with one selector, x ^ x ...), so values that depend on
+	// a counter are only continued by unary operations, by binary operations with a counter-free operand and by pipestages: never through
+	// multiplexers and never combined with each other.
+	void taintedStep(size_t &nHints) {
+		bool useBit = tvecs.empty() || (!tbits.empty() && rng.chance(1, 4));
+		int t = pickFrom(useBit ? tbits : tvecs);
+		unsigned c = (unsigned) rng.below(100);
+		if (c < 30) { add(Step{.kind = "stage", .w = w(t), .a = t}); nHints++; return; }
+		if (useBit) {
+			if (c < 50 || bits.empty()) add(Step{.kind = "bnot", .w = 0, .a = t});
+			else { static const char *ops[] = {"band", "bor", "bxor"}; add(Step{.kind = ops[rng.below(3)], .w = 0, .a = t, .b = pickBit()}); }
+			return;
+		}
+		if (c < 40) { Step s{.kind = rng.chance(1, 2) ? "addc" : "xorc", .w = w(t), .a = t}; s.k = rng.next() & maskOf(w(t)); add(s); }
+		else if (c < 46) add(Step{.kind = "not", .w = w(t), .a = t});
+		else if (c < 52) { size_t nw = 1 + rng.below(w(t)); Step s{.kind = "slice", .w = nw, .a = t}; s.k = rng.below(w(t) - nw + 1); add(s); }
+		else if (c < 56) { if (w(t) < 10) add(Step{.kind = "zext", .w = w(t) + 1, .a = t}); }
+		else if (c < 62) { Step s{.kind = "bit", .w = 0, .a = t}; s.k = rng.below(w(t)); add(s); }
+		else if (vecs.empty()) add(Step{.kind = "not", .w = w(t), .a = t});
+		else if (c < 88) { int u = vecOfWidth(w(t)); static const char *ops[] = {"add", "sub", "and", "or", "xor"}; bool sw = rng.chance(1, 2); const char *op = ops[rng.below(5)];
+			add(Step{.kind = op, .w = w(t), .a = sw ? u : t, .b = sw ? t : u}); }
+		else if (c < 94) { int u = vecOfWidth(w(t)); add(Step{.kind = "eq", .w = 0, .a = t, .b = u}); }
+		else { int u = pickVec(); if (w(t) + w(u) <= 12) add(Step{.kind = "cat", .w = w(t) + w(u), .a = t, .b = u}); }
+	}
+
 	int anyGroupedValue() {
+		if (r.cls == "autonomous" && (!tvecs.empty() || !tbits.empty()) && rng.chance(1, 2)) return pickFrom(tvecs.empty() || (!tbits.empty() && rng.chance(1, 4)) ? tbits : tvecs);
 		for (int tries = 0; tries < 20; tries++) {
 			int v = (vecs.empty() || (!bits.empty() && rng.chance(1, 4))) ? pickBit() : pickVec();
 			if (grouped(v)) return v;
@@ -259,6 +293,7 @@ struct Gen {
 		const std::string &cls = r.cls;
 		r.reset = rng.chance(1, 2) ? "sync" : "none";
 		{ unsigned m = (unsigned) rng.below(10); r.rmix = m < 4 ? "all" : (m < 7 ? "none" : "mixed"); }
+		if (cls == "resetedge") { r.reset = rng.chance(3, 4) ? "sync" : "none"; unsigned m = (unsigned) rng.below(4); r.rmix = m < 2 ? "mixed" : (m == 2 ? "none" : "all"); }
 		if (cls == "enablelogic") r.rmix = "all"; // hold registers need defined enables and the state must be a fixed point under the reset inputs (see holdPattern)
 		if (cls == "negreg") r.rmix = "all"; // the register compensating a negative register needs the reset value of the signal it reproduces: known only if all inputs have one
 		r.xdata = false; // data inputs are always defined: with undefined inputs the optimiser (C01) legitimately changes definedness (x == x -> 1) differently in the two designs
@@ -291,6 +326,7 @@ struct Gen {
 		size_t nSteps = 2 + rng.below(maxSteps);
 		size_t nHints = 0;
 		for (size_t n = 0; n < nSteps; n++) {
+			if (cls == "resetedge") { combStep(); continue; }
 			unsigned c = (unsigned) rng.below(100);
 			if (c < 22) { // pipestage
 				int v = anyGroupedValue(); if (v < 0) continue;
@@ -312,6 +348,7 @@ struct Gen {
 				if (rng.chance(1, 3)) s.c = condBit(); // stricter enable: en & cnd  -> enable splitting / holding circuit
 				add(s); }
 			else if (c < 40 && cls == "enablelogic") holdPattern(nHints);
+			else if (c < 52 && cls == "autonomous" && (!tvecs.empty() || !tbits.empty())) taintedStep(nHints);
 			else if (c < 34 && cls == "negreg") { int v = anyGroupedValue(); if (v < 0) continue;
 				const Step &sv = r.steps[v];
 				bool wantRst = r.rmix == "all";
@@ -320,13 +357,27 @@ struct Gen {
 			else if (c < (cls == "movable" ? 50u : 42u) && !vecs.empty()) pattern(noGroup, nHints);
 			else combStep();
 		}
+		// class resetedge: one output = combinational function of the group inputs followed by 1-3 pipestages in series (bitwise inversions /
+		// constant xors in between). The registers can only end up at the hints, so their reset values, and with them the behaviour after a
+		// synchronous reset, are predictable from the recipe and the reference twin's power-on value (design P in runCase).
+		std::set<int> outs;
+		if (cls == "resetedge") {
+			int v = anyGroupedValue();
+			size_t k = 1 + rng.below(3);
+			for (size_t i = 0; i < k && v >= 0; i++) {
+				if (rng.chance(1, 2)) { if (w(v) == 0) v = add(Step{.kind = "bnot", .w = 0, .a = v}); else if (rng.chance(1, 2)) v = add(Step{.kind = "not", .w = w(v), .a = v}); else { Step x{.kind = "xorc", .w = w(v), .a = v}; x.k = rng.next() & maskOf(w(v)); v = add(x); } }
+				v = add(Step{.kind = "stage", .w = w(v), .a = v}); nHints++;
+			}
+			if (v >= 0) outs.insert(v);
+		}
 		if (nHints == 0) { int v = anyGroupedValue(); if (v >= 0) { add(Step{.kind = "stage", .w = w(v), .a = v}); nHints++; } }
 		// outputs: last value plus some others, grouped values preferred
-		std::set<int> outs;
+		if (cls != "resetedge")
 		for (size_t i = r.steps.size(); i-- > 0;) if (r.steps[i].kind != "pin" && r.steps[i].kind != "cnt" && !(noGroup && r.steps[i].dep == 0)) { outs.insert((int) i); break; }
-		size_t extra = rng.below(3);
+		size_t extra = cls == "resetedge" ? 0 : rng.below(3);
 		for (size_t i = 0; i < extra; i++) { int v = anyGroupedValue(); if (v >= 0) outs.insert(v); }
 		// every hint should matter: make the last stage/negreg an output if it is not used
+		if (cls != "resetedge")
 		for (size_t i = r.steps.size(); i-- > 0;) if (r.steps[i].kind == "stage" || r.steps[i].kind == "negreg") { bool used = false; for (size_t j = i + 1; j < r.steps.size(); j++) if (r.steps[j].a == (int) i || r.steps[j].b == (int) i || r.steps[j].c == (int) i) used = true; if (!used) outs.insert((int) i); break; }
 		r.outs.assign(outs.begin(), outs.end());
 		analyse();
@@ -345,6 +396,15 @@ struct Gen {
 		  if (hold) { for (auto &s : r.steps) if ((s.kind == "mreg" || s.kind == "ffreg") && s.rst.empty()) s.rst = rndBits(s.w);
 		              for (auto &g : r.groups) for (auto &m : g.mem) if (m.rst.empty()) m.rst = rndBits(r.ins[m.pin].w);
 		              if (r.rmix != "all") r.rmix = "all"; } }
+		// Registers without reset value sample on the edge(s) under a synchronous reset, which retiming does not preserve (known finding
+		// reset-edge-sampling, exercised with a concrete prediction by class resetedge). In all other classes no register samples on the reset
+		// edge: the stall inputs are low in cycle 0, designs without stall input use a clock without reset. Every mismatch there is a violation.
+		if (cls != "resetedge" && r.reset == "sync") {
+			bool unreset = false;
+			for (auto &s : r.steps) if ((s.kind == "mreg" || s.kind == "ffreg" || s.kind == "negreg") && s.rst.empty()) unreset = true;
+			for (auto &g : r.groups) for (auto &m : g.mem) if (m.rst.empty()) unreset = true;
+			if (unreset) { if (r.enPins.empty()) r.reset = "none"; else r.edge0Low = true; }
+		}
 		if (noGroup) {
 			// lengthen the entry chains so that every hint finds a movable register on every path: chain length = max hints downstream (+ sometimes one spare)
 			std::vector<Step> ns; std::vector<int> remap(r.steps.size(), -1);
@@ -411,7 +471,7 @@ Recipe genMemory(Rng &rng) {
 
 std::string toString(const Recipe &r, uint64_t k, uint64_t sub) {
 	std::ostringstream o;
-	o << "case " << k << " sub=" << sub << " cls=" << r.cls << " reset=" << r.reset << " rmix=" << r.rmix << " ncyc=" << r.ncyc << " xdata=" << r.xdata << " en=";
+	o << "case " << k << " sub=" << sub << " cls=" << r.cls << " reset=" << r.reset << " rmix=" << r.rmix << " ncyc=" << r.ncyc << " xdata=" << r.xdata << " edge0low=" << r.edge0Low << " en=";
 	if (r.enPins.empty()) o << '-'; for (size_t i = 0; i < r.enPins.size(); i++) o << (i ? "," : "") << r.enPins[i];
 	o << '\n';
 	for (size_t i = 0; i < r.ins.size(); i++) o << "in " << i << " w=" << r.ins[i].w << " stall=" << r.ins[i].stall << '\n';
@@ -429,13 +489,13 @@ std::string toString(const Recipe &r, uint64_t k, uint64_t sub) {
 
 // ---------------------------------------------------------------------------------------------------------------- builder
 
-enum Variant { HINTED, TWIN, LAGTWIN };
+enum Variant { HINTED, TWIN, LAGTWIN, PRED };
 using Val = std::variant<std::monostate, Bit, UInt>;
 
 struct BuiltDesign {
 	vh::Built b;
 	std::vector<std::unique_ptr<PipeBalanceGroup>> groups;
-	std::map<int, hlim::BaseNode*> cntRegs; // step index of an autonomous counter -> its register node
+	std::map<int, uint64_t> cntRegs; // step index of an autonomous counter -> id of its register node (ids are never reused, addresses are)
 };
 
 template<class T> T regOpt(const T &v, const std::string &rst, const RegisterSettings &st = {}) {
@@ -473,8 +533,10 @@ void buildMemory(const Recipe &r, Variant var, BuiltDesign &res) {
 }
 
 // N: stages per group (TWIN / LAGTWIN)
-// cntLag: (LAGTWIN) number of registers the retiming put between an autonomous counter and the outputs, measured on the hinted design
-void buildDesign(const Recipe &r, Variant var, const std::vector<size_t> &N, BuiltDesign &res, const std::map<int, size_t> &cntLag = {}) {
+// cntLag: (LAGTWIN) delay of an autonomous counter where it meets grouped data = number of pipestage hints downstream of the combining step
+// (Step.h, derived from the recipe alone; the count measured on the post-processed hinted design is only compared with it)
+// predRst: (PRED) reset value of the explicit register that stands at each pipestage ("" = none)
+void buildDesign(const Recipe &r, Variant var, const std::vector<size_t> &N, BuiltDesign &res, const std::map<int, size_t> &cntLag = {}, const std::map<int, std::string> &predRst = {}) {
 	res.b.clock.emplace(ClockConfig{.absoluteFrequency = 100'000'000, .name = "clk",
 		.resetType = r.reset == "sync" ? ClockConfig::ResetType::SYNCHRONOUS : ClockConfig::ResetType::NONE,
 		.memoryResetType = ClockConfig::ResetType::NONE, .initializeRegs = true});
@@ -510,7 +572,8 @@ void buildDesign(const Recipe &r, Variant var, const std::vector<size_t> &N, Bui
 					auto &grp = *res.groups[s.g];
 					if (s.w == 0) { Bit x = std::get<Bit>(pins[m.pin]); vals[i] = m.rst.empty() ? Bit(grp(x)) : Bit(grp(x, m.rst[0] == '1' ? '1' : '0')); }
 					else { UInt x = std::get<UInt>(pins[m.pin]); if (m.rst.empty()) vals[i] = UInt(grp(x)); else { UInt rv = vh::constU(m.rst); vals[i] = UInt(grp(x, rv)); } }
-				} else vals[i] = delayed(pins[m.pin], N[s.g], m.rst);
+				} else if (var == PRED) vals[i] = pins[m.pin];
+				else vals[i] = delayed(pins[m.pin], N[s.g], m.rst);
 			}
 			else if (k == "pin") vals[i] = pins[s.k];
 			else if (k == "add") vals[i] = UInt(vec(s.a) + vecB());
@@ -541,6 +604,7 @@ void buildDesign(const Recipe &r, Variant var, const std::vector<size_t> &N, Bui
 			else if (k == "zext") vals[i] = UInt(zext(vec(s.a), BitWidth(s.w)));
 			else if (k == "stage") {
 				if (var == HINTED) { if (s.w == 0) vals[i] = Bit(pipestage(bit(s.a))); else vals[i] = UInt(pipestage(vec(s.a))); }
+				else if (var == PRED) { const std::string &pr = predRst.at((int) i); if (s.w == 0) vals[i] = regOpt(bit(s.a), pr); else vals[i] = regOpt(vec(s.a), pr); }
 				else vals[i] = vals[s.a];
 			}
 			else if (k == "ffreg") { if (s.w == 0) vals[i] = regOpt(bit(s.a), s.rst); else vals[i] = regOpt(vec(s.a), s.rst); }
@@ -553,7 +617,7 @@ void buildDesign(const Recipe &r, Variant var, const std::vector<size_t> &N, Bui
 				UInt c = BitWidth(s.w); UInt step = vh::constU(bitsOf(s.k, s.w)); UInt rv = vh::constU(s.rst);
 				UInt next = s.fl ? UInt(rotl(c, 1) ^ step) : UInt(c + step);
 				c = reg(next, rv); vals[i] = c;
-				res.cntRegs[(int) i] = c.node()->getNonSignalDriver(0).node;
+				res.cntRegs[(int) i] = c.node()->getNonSignalDriver(0).node->getId();
 			}
 			else if (k == "negreg") {
 				if (var != HINTED) vals[i] = vals[s.a];
@@ -634,7 +698,7 @@ vh::Stimulus genStim(Rng &rng, const Recipe &r) {
 		if (stallMode == 3 && rng.chance(1, 4)) burst = !burst;
 		for (size_t pi = 0; pi < r.ins.size(); pi++) { auto &p = r.ins[pi];
 			std::string s;
-			if (p.stall && c < lowFirst[pi]) s = "0";
+			if (p.stall && (c < lowFirst[pi] || (c == 0 && r.edge0Low))) s = "0";
 			else if (p.stall) { bool hi = stallMode == 0 ? true : stallMode == 1 ? !rng.chance(1, 8) : stallMode == 2 ? rng.chance(1, 2) : !burst; s = hi ? "1" : "0"; }
 			else for (size_t i = 0; i < std::max<size_t>(1, p.w); i++) { char ch = mode == 0 ? '0' : mode == 1 ? '1' : (rng.chance(1, 2) ? '1' : '0'); if (r.xdata && rng.chance(1, 12)) ch = 'x'; s.push_back(ch); }
 			row.push_back(s);
@@ -649,10 +713,13 @@ void runCase(uint64_t k, uint64_t sub, const Recipe &r, Rng &rng, std::ostream &
 	o << toString(r, k, sub);
 	vh::Stimulus st = genStim(rng, r);
 	std::vector<size_t> N(r.groups.size(), 0);
-	std::vector<std::vector<std::string>> trH, trT, trL;
+	std::vector<std::vector<std::string>> trH, trT, trL, trP;
+	std::map<int, std::string> predRst;
 	std::ostringstream gH, gT;
 	size_t latches = 0, dummy = 0;
-	std::map<int, size_t> cntLag; bool lagDefined = true;
+	std::map<int, long> cntLag; // measured on the post-processed hinted design: registers between counter and outputs; -1 = no path (counter invisible), -2 = paths disagree
+	std::map<int, size_t> derivedLag; bool lagDefined = true;
+	for (size_t i = 0; i < r.steps.size(); i++) if (r.steps[i].b >= 0 && r.steps[r.steps[i].b].autonomous) derivedLag[r.steps[i].b] = r.steps[i].live ? r.steps[i].h : 0;
 	const char *phase = "hinted";
 	try {
 		{
@@ -661,12 +728,12 @@ void runCase(uint64_t k, uint64_t sub, const Recipe &r, Rng &rng, std::ostream &
 			for (size_t g = 0; g < r.groups.size(); g++) N[g] = d.groups[g]->getNumPipeBalanceGroupStages();
 			if (r.cls != "memory") dumpGraph(design.getCircuit(), d.b, "hn", gH, latches);
 			trH = vh::simulate(design.getCircuit(), d.b, st);
-			for (auto &[step, node] : d.cntRegs) {
-				bool alive = false; for (auto &up : design.getCircuit().getNodes()) if (up.get() == node) alive = true;
-				if (!alive) { cntLag[step] = 0; continue; }
+			for (auto &[step, id] : d.cntRegs) {
+				hlim::BaseNode *node = nullptr; for (auto &up : design.getCircuit().getNodes()) if (up->getId() == id && dynamic_cast<hlim::Node_Register*>(up.get())) node = up.get();
+				if (!node) { cntLag[step] = -1; continue; }
 				auto cnts = regsBetween(design.getCircuit(), d.b, node);
-				if (cnts.size() > 1 || cnts.count(~size_t(0))) lagDefined = false;
-				cntLag[step] = cnts.empty() ? 0 : *cnts.begin();
+				if (cnts.size() > 1 || cnts.count(~size_t(0))) { lagDefined = false; cntLag[step] = -2; }
+				else cntLag[step] = cnts.empty() ? -1 : (long) *cnts.begin();
 			}
 		}
 		phase = "twin";
@@ -676,10 +743,24 @@ void runCase(uint64_t k, uint64_t sub, const Recipe &r, Rng &rng, std::ostream &
 			trT = vh::simulate(design.getCircuit(), d.b, st);
 		}
 		phase = "lagtwin";
-		if (r.cls == "autonomous" && lagDefined) {
-			DesignScope design; BuiltDesign d; buildDesign(r, LAGTWIN, N, d, cntLag);
+		if (r.cls == "autonomous") {
+			DesignScope design; BuiltDesign d; buildDesign(r, LAGTWIN, N, d, derivedLag);
 			design.postprocess();
 			trL = vh::simulate(design.getCircuit(), d.b, st);
+		}
+		phase = "prediction";
+		if (r.cls == "resetedge" && r.outs.size() == 1 && !trT.empty()) {
+			// chain behind the combinational function F: unary xors and pipestages. F's four-state power-on value = twin's output in cycle 0 with the xors undone.
+			std::vector<int> chain; for (int x = r.outs[0]; x >= 0; x = r.steps[x].a) { const std::string &k = r.steps[x].kind; if (k != "stage" && k != "not" && k != "bnot" && k != "xorc") break; chain.push_back(x); }
+			std::reverse(chain.begin(), chain.end());
+			auto maskOfStep = [&](int x) -> uint64_t { const Step &s = r.steps[x]; return s.kind == "stage" ? 0 : s.kind == "xorc" ? s.k : maskOf(s.w); };
+			auto xorStr = [](std::string v, uint64_t m) { for (size_t i = 0; i < v.size(); i++) if (v[i] != 'x' && ((m >> (v.size() - 1 - i)) & 1)) v[i] = v[i] == '1' ? '0' : '1'; return v; };
+			uint64_t total = 0; for (int x : chain) total ^= maskOfStep(x);
+			std::string cur = xorStr(trT[0][0], total);
+			for (int x : chain) { cur = xorStr(cur, maskOfStep(x)); if (r.steps[x].kind == "stage") predRst[x] = cur.find_first_of("01") == std::string::npos ? std::string() : cur; }
+			DesignScope design; BuiltDesign d; buildDesign(r, PRED, N, d, {}, predRst);
+			design.postprocess();
+			trP = vh::simulate(design.getCircuit(), d.b, st);
 		}
 	} catch (const std::exception &e) {
 		std::string msg = e.what(); for (char &ch : msg) if (ch == '\n' || ch == '\r') ch = ' ';
@@ -688,10 +769,12 @@ void runCase(uint64_t k, uint64_t sub, const Recipe &r, Rng &rng, std::ostream &
 	for (size_t g = 0; g < N.size(); g++) o << "stages " << g << ' ' << N[g] << '\n';
 	o << "info latches=" << latches << " lagdefined=" << lagDefined << " lags=";
 	if (cntLag.empty()) o << '-'; { bool first = true; for (auto &[step, l] : cntLag) { o << (first ? "" : ",") << step << ':' << l; first = false; } }
+	o << " dlags=";
+	if (derivedLag.empty()) o << '-'; { bool first = true; for (auto &[step, l] : derivedLag) { o << (first ? "" : ",") << step << ':' << l; first = false; } }
 	o << '\n';
 	o << gH.str() << gT.str();
 	for (size_t c = 0; c < st.cycles.size(); c++) { o << "s " << c; for (auto &s : st.cycles[c]) o << ' ' << s; o << '\n'; }
-	printTrace("h", trH, o); printTrace("t", trT, o); if (!trL.empty()) printTrace("l", trL, o);
+	printTrace("h", trH, o); printTrace("t", trT, o); if (!trL.empty()) printTrace("l", trL, o); if (!trP.empty()) printTrace("p", trP, o);
 	o << "end\n";
 	out << o.str();
 }
